@@ -140,9 +140,12 @@ Definition pf_plain : profile :=
 Record srcflags := {
   fl_lr_wraps : bool;         (* add_low_rank: `if return_triangular: updated_root = TriangularLinearOperator(updated_root)` *)
   fl_eigh_none : bool;        (* eigh: the pop branch returns (evals, None) *)
-  fl_eigvalsh_tuple : bool    (* eigvalsh: the pop branch returns a tuple instead of evals *)
+  fl_eigvalsh_tuple : bool;   (* eigvalsh: the pop branch returns a tuple instead of evals *)
+  fl_kron_rootinv_noargs : bool  (* KroneckerProductLinearOperator.root_inv_decomposition: super().root_inv_decomposition()
+                                    is called WITHOUT the arguments (kronecker_product_linear_operator.py) *)
 }.
-Definition fl_pinned : srcflags := {| fl_lr_wraps := true; fl_eigh_none := true; fl_eigvalsh_tuple := true |}.
+Definition fl_pinned : srcflags :=
+  {| fl_lr_wraps := true; fl_eigh_none := true; fl_eigvalsh_tuple := true; fl_kron_rootinv_noargs := true |}.
 
 Section Model.
 Variable K : kern.
@@ -447,11 +450,16 @@ Definition root_inv_body (kids_call : nat -> list pyv -> kwargs -> H Val)
     match pf_eig (o_pf o) with
     | EigKron l =>
         (* KroneckerProductLinearOperator: @cached(name="root_inv_decomposition") override:
-           small: return super().root_inv_decomposition()   (NO arguments are passed on);
+           small: return super().root_inv_decomposition()   (NO arguments are passed on: a known finding; the
+           repaired call super().root_inv_decomposition(initial_vectors=.., test_vectors=.., method=..) when the
+           source flag is off);
            else the Kronecker product of lt.root_inv_decomposition().root *)
         cached_m i "root_inv_decomposition" (Some "root_inv_decomposition") false (fun a k =>
           p <- lift (bind_params ["initial_vectors"; "test_vectors"; "method"] a k) ;;
-          if o_n o <=? st_max_chol st then base_cached [] []
+          if o_n o <=? st_max_chol st
+          then (if fl_kron_rootinv_noargs fl then base_cached [] []
+                else base_cached [] [("initial_vectors", nth 0 p PNone); ("test_vectors", nth 1 p PNone);
+                                     ("method", nth 2 p PNone)])
           else rs <- mapM (fun c => kids_call c [] []) l ;; ret (k_rootinv_kron K (o_mat o) rs)) args kw
     | _ => base_cached args kw
     end).
